@@ -319,7 +319,7 @@ def main():
             continue
         binary = bins[variant]
         count = vcfg['count']
-        deadline = vcfg['seconds']
+        deadline = vcfg['seconds'] * float(os.environ.get('VERIF_TIME_SCALE', '1'))   # (smoke runs of a tier with a shorter search)
         seed0 = seed_base * 1000003 + vcfg.get('seed_offset', 1)
         vout = os.path.join(outdir, variant)
         os.makedirs(vout, exist_ok=True)
